@@ -28,6 +28,17 @@ from .world import HNode, World
 KNOWN_OPEN = set()
 
 NAMES = ("a", "b", "a", "root", "sub 0", 'q"uote', "back\\slash", '\\"', '"', "\\", "ä ö", "日本", "x\ny", "a", "N1", "0x1", "[b]", "(c)")
+# names that are not strings (the exporters render them with str()); written as specs so cfg/ops stay JSON
+PY_NAMES = {"True": True, "1": 1, "0": 0, "False": False, "2.0": 2.0, "2": 2, "None": None, "b'x'": b"x", "b'\\xff'": b"\xff", "(1, 2)": (1, 2)}
+FORGOTTEN = object()
+
+
+def nm(spec):
+    if isinstance(spec, dict):
+        return PY_NAMES[spec["py"]]
+    return spec
+
+
 ID_RE = re.compile(r'^(?:[^"\\]|\\.)+$', re.S)
 
 
@@ -60,14 +71,21 @@ def rand_name(rng):
 
 def gen_cfg(rng, prop, tier):
     n = rng.randint(1, 12 if tier == "thorough" else 9)
-    big = prop == "C13" and rng.random() < (0.02 if tier == "thorough" else 0.01)
+    big = rng.random() < (0.02 if tier == "thorough" else 0.01)
     if big:
-        # large exports: buffering/chunking boundaries of to_file
-        n = rng.randint(500, 1200)
+        # large exports: buffering/chunking boundaries of to_file, bounded identifier tables
+        n = rng.randint(500, 1200) if prop == "C13" else rng.randint(130, 420)
+    huge = big and rng.random() < 0.03
+    if huge:
+        n = rng.randint(16400, 17500)  # beyond 2**14 entries in any per-exporter table
     parents = [None] + [rng.randrange(i) if rng.random() < 0.92 else None for i in range(1, n)]
     if big:
         parents = [None] + [rng.randrange(max(0, i - 40), i) for i in range(1, n)]
+    if huge:
+        parents = [None] + [rng.randrange(min(i, 64)) for i in range(1, n)]
     pool = rng.sample(NAMES, rng.randint(2, 8)) + [rand_name(rng) for _ in range(rng.randint(0, 6))]
+    if rng.random() < 0.25:
+        pool += [{"py": k} for k in rng.sample(sorted(PY_NAMES), rng.randint(2, 5))]
     names = [rng.choice(pool) for _ in range(n)]
     if prop == "C12":
         kind = rng.choice(("dot", "dot", "udot", "udot", "udot", "rtg"))
@@ -100,8 +118,9 @@ def gen_cfg(rng, prop, tier):
         "refilter": rng.random() < 0.3,
     }
     if big:
-        cfg.update(start=0, fset=None, sset=None, ml=None, sessions=1, cursors=1, mut=0, tofile=True, defaults=rng.random() < 0.7,
-                   namef=False, attrf=False, eattrf=False, forget=False, refilter=False, names=["a"] * n)
+        cfg.update(start=0, fset=None, sset=None, ml=None, sessions=rng.choice((1, 2)), cursors=1, mut=0, tofile=prop == "C13",
+                   defaults=rng.random() < 0.7, namef=False, attrf=False, eattrf=False, forget=False, refilter=False, names=["a"] * n)
+    cfg["setopt"] = rng.random() < 0.3
     return cfg
 
 
@@ -173,11 +192,16 @@ def make_exporter(cfg, world, funcs):
 
 
 def effective(cfg):
-    if cfg["defaults"]:
-        if cfg["kind"] == "mermaid":
-            return "graph", "TD", None, 0
-        return "digraph", "tree", None, 4
     return cfg["graph"], cfg["gname"], cfg["options"], cfg["indent"]
+
+
+def materialise_defaults(live):
+    """An exporter built with default arguments: the settings it then carries as public attributes."""
+    if live["defaults"]:
+        if live["kind"] == "mermaid":
+            live.update(graph="graph", gname="TD", options=None, indent=0)
+        else:
+            live.update(graph="digraph", gname="tree", options=None, indent=4)
 
 
 def admitted(cfg, snap):
@@ -223,6 +247,7 @@ class Judge(object):
         indent = " " * indent_n
         ctx = "step %d %s(start=%d, filter-out=%r, stop=%r, maxlevel=%r) on links %r names %r" % (
             step, kind, cfg["start"], cfg["fset"], cfg["sset"], cfg["ml"], snap, names)
+        names = [str(x) for x in names]  # what the exporters print
         decl, depth = admitted(cfg, snap)
         declset = set(decl)
         fset = set(cfg["fset"] or ())
@@ -399,16 +424,19 @@ def run(cfg, ops=None, rng=None):
     res = Result()
     world = World()
     n0 = len(cfg["parents"])
-    names = list(cfg["names"])
+    names = [nm(x) for x in cfg["names"]]
     for i in range(n0):
         world.register(HNode(names[i]))
     for i, p in enumerate(cfg["parents"]):
         if p is not None:
             world.nodes[i].parent = world.nodes[p]
-    live = dict(cfg)  # the filter/stop sets may be changed between sessions
+    live = dict(cfg)  # the filter/stop sets and the public settings may be changed between sessions
+    if live["options"] is not None:
+        live["options"] = list(live["options"])
     funcs = Funcs(live, world)
     exporter = make_exporter(live, world, funcs)
     judge = Judge(live, funcs)
+    materialise_defaults(live)
     h = hashlib.blake2b(digest_size=16)
     h.update(repr(sorted((k, repr(v)) for k, v in cfg.items())).encode())
     replay = ops is not None
@@ -449,7 +477,11 @@ def run(cfg, ops=None, rng=None):
                         r = rng.random()
                         alive = [j for j in range(n) if world.nodes[j] is not None]
                         leaves = [j for j in alive if j != cfg["start"] and not world.nodes[j].children]
-                        if cfg["forget"] and leaves and rng.random() < 0.35:
+                        if cfg.get("setopt") and rng.random() < 0.3:
+                            what = rng.choice(("append", "pop", "options", "indent", "name", "graph"))
+                            op = {"op": "setopt", "what": what, "v": {"append": "opt%d;" % step, "pop": None, "options": ["o%d;" % step], "indent": rng.choice((0, 1, 3, 8)),
+                                                                     "name": "g%d" % step, "graph": rng.choice(("graph", "digraph", "strict digraph"))}[what]}
+                        elif cfg["forget"] and leaves and rng.random() < 0.35:
                             op = {"op": "forget", "n": rng.choice(leaves)}
                         elif cfg["refilter"] and (live["fset"] is not None or live["sset"] is not None) and rng.random() < 0.35:
                             op = {"op": "setfilter",
@@ -459,7 +491,8 @@ def run(cfg, ops=None, rng=None):
                             i = rng.choice(alive)
                             op = {"op": "parent", "n": i, "p": rng.choice([None] + [j for j in alive if j != i])}
                         elif r < 0.75:
-                            op = {"op": "rename", "n": rng.choice(alive), "name": rng.choice(NAMES) if rng.random() < 0.5 else rand_name(rng)}
+                            op = {"op": "rename", "n": rng.choice(alive),
+                                  "name": rng.choice(cfg["names"]) if rng.random() < 0.4 else (rng.choice(NAMES) if rng.random() < 0.5 else rand_name(rng))}
                         else:
                             op = {"op": "new", "name": rng.choice(NAMES), "p": rng.choice(alive)}
                 res.ops.append(op)
@@ -525,12 +558,31 @@ def run(cfg, ops=None, rng=None):
                     world.nodes[i].parent = None
                     world._idx.pop(id(world.nodes[i]), None)
                     world.nodes[i] = None
-                    names[i] = None
+                    names[i] = FORGOTTEN
                     ident = judge.ids.pop(i, None)
                     if ident is not None:
                         judge.owner.pop(ident, None)
                     gc.collect()
                     res.bump("nodes_forgotten")
+            elif kind == "setopt" and not cursors:
+                what, v = op["what"], op["v"]
+                if what == "append" and live["options"] is not None:
+                    live["options"].append(v)  # the very list object the exporter was given
+                elif what == "pop" and live["options"]:
+                    live["options"].pop()
+                elif what == "options":
+                    live["options"] = list(v)
+                    exporter.options = live["options"]
+                elif what == "indent":
+                    live["indent"] = v
+                    exporter.indent = v
+                elif what == "name":
+                    live["gname"] = v
+                    exporter.name = v
+                elif what == "graph":
+                    live["graph"] = v
+                    exporter.graph = v
+                res.bump("setting_changes")
             elif kind == "setfilter" and not cursors:
                 if live["fset"] is not None:
                     live["fset"] = list(op["fset"])
@@ -550,13 +602,13 @@ def run(cfg, ops=None, rng=None):
                         raise Violation("GUARD", "guard", step, "guard", "forest inconsistent after %r" % (op,))
             elif kind == "rename" and not cursors:
                 if op["n"] < n and world.nodes[op["n"]] is not None:
-                    world.nodes[op["n"]].name = op["name"]
-                    names[op["n"]] = op["name"]
+                    world.nodes[op["n"]].name = nm(op["name"])
+                    names[op["n"]] = nm(op["name"])
                     res.bump("renames")
             elif kind == "new" and not cursors:
                 if op["p"] < n and world.nodes[op["p"]] is not None:
-                    world.register(HNode(op["name"], parent=world.nodes[op["p"]]))
-                    names.append(op["name"])
+                    world.register(HNode(nm(op["name"]), parent=world.nodes[op["p"]]))
+                    names.append(nm(op["name"]))
                     res.bump("new_nodes")
             step += 1
     except Violation as v:
